@@ -18,7 +18,9 @@ pub mod c19;
 pub mod c20;
 pub mod c21;
 pub mod c22;
+pub mod c23;
+pub mod c24;
 
 pub fn all() -> Vec<PropertyDef> {
-    vec![c01::def(), c02::def(), c03::def(), c04::def(), c05::def(), c06::def(), c07::def(), c08::def(), c09::def(), c10::def(), c11::def(), c12::def(), c16::def16(), c16::def17(), c18::def(), c19::def(), c20::def(), c21::def(), c22::def()]
+    vec![c01::def(), c02::def(), c03::def(), c04::def(), c05::def(), c06::def(), c07::def(), c08::def(), c09::def(), c10::def(), c11::def(), c12::def(), c16::def16(), c16::def17(), c18::def(), c19::def(), c20::def(), c21::def(), c22::def(), c23::def(), c24::def()]
 }
